@@ -983,7 +983,18 @@ func ruleBmapFlag(c *Ctx, id string) {
 	V, P, R := c.V, c.P, c.R
 	R.Rule(id, "bmap reports what it did: a constant true reaches its 'allocated' result only on the not-null side of a test of a block pointer (a slot of Inode.blks or the allocator's answer)", 1)
 	bm := V.bmap
-	if bm == nil || bm.Signature.Results().Len() != 2 {
+	if bm == nil {
+		return
+	}
+	// the 'allocated' result: the boolean one
+	flagIdx := -1
+	for i := 0; i < bm.Signature.Results().Len(); i++ {
+		if bt, ok := bm.Signature.Results().At(i).Type().Underlying().(*types.Basic); ok && bt.Kind() == types.Bool {
+			flagIdx = i
+		}
+	}
+	if flagIdx < 0 {
+		R.Undecided(id, "inode.bmap|'allocated' result", P.Pos(bm.Pos()), "bmap has a boolean result", "none found")
 		return
 	}
 	isPtr := func(v ssa.Value) bool {
@@ -1045,11 +1056,64 @@ func ruleBmapFlag(c *Ctx, id string) {
 		R.Check(g, id, fmt.Sprintf("inode.bmap|'allocated' set#%d only where a pointer was linked", n), P.Pos(from.Instrs[len(from.Instrs)-1].Pos()), "the constant true reaches the result on the not-null side of a test of the pointer", "edge guarded by pointer != 0", "bmap says 'allocated' where no block was linked and 'nothing new' where one was: its callers skip WriteInode exactly when the inode changed - the pointer never reaches the disk while the bitmap bit does; after a restart the block is allocated and unreachable, and the bytes written to it are gone")
 	}
 	for _, b := range bm.Blocks {
-		if r, ok := b.Instrs[len(b.Instrs)-1].(*ssa.Return); ok && len(r.Results) == 2 {
-			walk(r.Results[1], nil, nil, 0)
+		if r, ok := b.Instrs[len(b.Instrs)-1].(*ssa.Return); ok && flagIdx < len(r.Results) {
+			walk(r.Results[flagIdx], nil, nil, 0)
 		}
 	}
 	if n == 0 {
-		R.Pass(id, "inode.bmap|'allocated' is computed", P.Pos(bm.Pos()), "no constant true reaches the result: it is computed from the pointers", "comparison of pointers")
+		// bmap links a block by storing the allocator's answer into a slot of the inode: then something must say so
+		direct := false
+		var sb *ssa.BasicBlock
+		for _, b := range bm.Blocks {
+			for _, in := range b.Instrs {
+				if st, ok := in.(*ssa.Store); ok {
+					if ia, ok := st.Addr.(*ssa.IndexAddr); ok {
+						if nm, fl, _ := fieldLoad(ia.X); nm == V.Inode && fl == "blks" {
+							if cl, ok := stripConv(st.Val).(*ssa.Call); ok && staticCallee(cl) == V.AllocBlock {
+								direct, sb = true, b
+							}
+						}
+					}
+				}
+			}
+		}
+		// what the result can be on the ways that come from that store: a computed value may be right
+		computed := false
+		if direct {
+			for _, b := range bm.Blocks {
+				if r, ok := b.Instrs[len(b.Instrs)-1].(*ssa.Return); ok && flagIdx < len(r.Results) {
+					seenW := map[ssa.Value]bool{}
+					var w func(v ssa.Value, d int)
+					w = func(v ssa.Value, d int) {
+						if seenW[v] || d > 8 {
+							return
+						}
+						seenW[v] = true
+						if ph, isP := v.(*ssa.Phi); isP {
+							for i, e := range ph.Edges {
+								if reachesBlockC10(sb, ph.Block().Preds[i]) {
+									w(e, d+1)
+								}
+							}
+							return
+						}
+						if _, isb := constBool(v); !isb {
+							computed = true
+						}
+					}
+					w(r.Results[flagIdx], 0)
+				}
+			}
+		}
+		if computed {
+			direct = false
+		}
+		if direct {
+			R.Check(false, id, "inode.bmap|'allocated' set where a pointer was linked", P.Pos(bm.Pos()), "the arm that stores the allocator's answer into a slot of the inode sets the result to true where that answer is not null", fmt.Sprintf("no constant true reaches the result (computed sources: %v)", computed), "bmap links a block into a direct slot and never says so: its callers skip WriteInode - the pointer never reaches the disk while the bitmap bit does; after a restart the block is allocated and unreachable, and the bytes written to it are gone")
+		} else {
+			R.Pass(id, "inode.bmap|'allocated' is computed", P.Pos(bm.Pos()), "no constant true reaches the result: it is computed from the pointers", "comparison of pointers")
+		}
 	}
 }
+
+func reachesBlockC10(a, b *ssa.BasicBlock) bool { return reachesBlock(a, b) }
